@@ -394,11 +394,64 @@ func withoutSCTPMembers(members map[string][]string) refpolicy.IPSets {
 
 // ---------------------------------------------------------------------------------------------
 
+// safeCompile runs the builder and turns a panic into a value (the harness would record any panic as
+// a violation anyway; catching it here lets the case name the cause and go on).
+func safeCompile(rules polprog.Rules, ids polexec.IDs, o polexec.Options, fds polexec.FDs) (progs []asm.Insns, err error, panicMsg string) {
+	defer func() {
+		if r := recover(); r != nil {
+			panicMsg = fmt.Sprint(r)
+			if e, ok := r.(*logrus.Entry); ok {
+				panicMsg = e.Message
+			}
+		}
+	}()
+	progs, err = polexec.Compile(rules, ids, o, fds)
+	return
+}
+
+func profilesHaveLog(r polprog.Rules) bool {
+	for _, ps := range [][]polprog.Profile{r.Profiles, r.HostProfiles} {
+		for _, p := range ps {
+			for _, ru := range p.Rules {
+				if strings.EqualFold(ru.Action, "log") {
+					return true
+				}
+			}
+		}
+	}
+	return false
+}
+
+// withoutProfileLogRules returns rules with the log rules of profiles removed (a log rule never changes
+// a verdict, so the reference verdicts stay the same).
+func withoutProfileLogRules(r polprog.Rules) polprog.Rules {
+	strip := func(ps []polprog.Profile) []polprog.Profile {
+		out := make([]polprog.Profile, len(ps))
+		for i, p := range ps {
+			out[i] = p
+			out[i].Rules = nil
+			for _, ru := range p.Rules {
+				if !strings.EqualFold(ru.Action, "log") {
+					out[i].Rules = append(out[i].Rules, ru)
+				}
+			}
+		}
+		return out
+	}
+	r.Profiles, r.HostProfiles = strip(r.Profiles), strip(r.HostProfiles)
+	return r
+}
+
 type executors struct {
 	k    *polexec.Kernel
 	vm   *polexec.VM
 	opts polexec.Options
 }
+
+// lastBuildFailure says why the most recent build() recorded a violation ("" = it did not):
+// "log-in-profile" or "unreachable-after-split" are the two shapes after which a case can continue
+// with an adjusted input, so that one finding does not hide others.
+var lastBuildFailure string
 
 func (e *executors) close() {
 	if e.k != nil {
@@ -408,6 +461,7 @@ func (e *executors) close() {
 
 // build compiles rules and loads them into both executors.  A non-nil violation has been recorded.
 func build(c *harness.Case, rules polprog.Rules, ids polexec.IDs, opts polexec.Options, members map[string][]string, detail func() map[string]any) (*executors, bool) {
+	lastBuildFailure = ""
 	e := &executors{opts: opts}
 	fds := polexec.FDs{IPSets: 3, State: 4, Static: 5, PolJump: 6}
 	if bpfsys.Available() == nil {
@@ -420,13 +474,31 @@ func build(c *harness.Case, rules polprog.Rules, ids polexec.IDs, opts polexec.O
 		fds = k.FDs()
 	}
 	var progs []asm.Insns
-	for attempt := 0; ; attempt++ {
+	compile := func() bool {
 		var err error
-		progs, err = polexec.Compile(rules, ids, e.opts, fds)
+		var pmsg string
+		progs, err, pmsg = safeCompile(rules, ids, e.opts, fds)
+		if pmsg != "" {
+			d := detail()
+			d["panic"] = pmsg
+			key := "builder-panics"
+			if strings.Contains(pmsg, "empty action label") && profilesHaveLog(rules) {
+				key = "builder-panics:log-action-in-profile"
+				lastBuildFailure = "log-in-profile"
+			}
+			c.Violationf(key, d, "polprog.Builder.Instructions panicked on a valid configuration: %s", pmsg)
+			return false
+		}
 		if err != nil {
 			d := detail()
 			d["error"] = err.Error()
 			c.Violationf("compile-error", d, "polprog.Builder.Instructions failed on a valid configuration: %v", err)
+			return false
+		}
+		return true
+	}
+	for attempt := 0; ; attempt++ {
+		if !compile() {
 			e.close()
 			return nil, false
 		}
@@ -469,11 +541,7 @@ func build(c *harness.Case, rules polprog.Rules, ids polexec.IDs, opts polexec.O
 				}
 				e.opts.TrampolineStride = ts
 				c.Count("trampoline_stride_reduced", 1)
-				var cerr error
-				if progs, cerr = polexec.Compile(rules, ids, e.opts, fds); cerr != nil {
-					d := detail()
-					d["error"] = cerr.Error()
-					c.Violationf("compile-error", d, "polprog.Builder.Instructions failed on a valid configuration: %v", cerr)
+				if !compile() {
 					e.close()
 					return nil, false
 				}
@@ -485,11 +553,23 @@ func build(c *harness.Case, rules polprog.Rules, ids polexec.IDs, opts polexec.O
 				d["verifier_log_tail"] = le.VerifierLog
 				d["sub_program"] = le.Index
 				d["instructions"] = le.NumInsns
+				d["num_sub_programs"] = len(progs)
 				if le.Index < len(progs) {
 					d["program_tail"] = disasm(progs[le.Index], 60)
 				}
+				// the same configuration compiled with policy debug on carries the builder's labels
+				dbg := e.opts
+				dbg.PolicyDebug = true
+				if dp, derr, pm := safeCompile(rules, ids, dbg, fds); derr == nil && pm == "" && le.Index < len(dp) {
+					d["program_tail_with_labels_policy_debug_build"] = disasm(dp[le.Index], 45)
+				}
 			}
-			c.Violationf("verifier-rejects-program", d, "the kernel verifier rejected a generated policy program: %v", err)
+			key := "verifier-rejects-program"
+			if le, ok := err.(*polexec.LoadError); ok && strings.Contains(le.VerifierLog, "unreachable insn") && len(progs) > 1 {
+				key = "verifier-rejects-program:unreachable-insn-after-split"
+				lastBuildFailure = "unreachable-after-split"
+			}
+			c.Violationf(key, d, "the kernel verifier rejected a generated policy program: %v", err)
 			e.close()
 			return nil, false
 		}
@@ -570,7 +650,100 @@ func toState(p refpolicy.Packet, pre refpolicy.Packet, fromHost, toHost bool, r 
 	return ps
 }
 
+// alignedSplit is a directed case: a workload whose first tier (default deny, no pass rules) is sized
+// so that the builder's REAL split threshold (production default, no hook) is crossed exactly at the
+// first rule after that tier's end.  The number of single ports of the tier's last rule walks the
+// alignment one jump at a time across a window around the threshold.
+func alignedSplit(c *harness.Case) {
+	mkRule := func(i, ports int, action string) polprog.Rule {
+		pr := &proto.Rule{Action: action, Protocol: rulegen.ProtoName("tcp"), RuleId: fmt.Sprintf("r%d", i), SrcNet: []string{fmt.Sprintf("10.%d.%d.0/24", i/250, i%250)}}
+		for j := 0; j < ports; j++ {
+			pr.DstPorts = append(pr.DstPorts, &proto.PortRange{First: int32(1000 + j), Last: int32(1000 + j)})
+		}
+		return polprog.Rule{Rule: pr, MatchID: uint64(1000 + i)}
+	}
+	config := func(n, extra int, withSecond bool) polprog.Rules {
+		pol := polprog.Policy{Kind: "GlobalNetworkPolicy", Name: "p1"}
+		for i := 0; i < n; i++ {
+			pol.Rules = append(pol.Rules, mkRule(i, 20, []string{"allow", "deny"}[i%2]))
+		}
+		pol.Rules = append(pol.Rules, mkRule(n, extra, "deny"))
+		r := polprog.Rules{NoProfileMatchID: 7, Tiers: []polprog.Tier{{Name: "first", EndRuleID: 8, EndAction: polprog.TierEndDeny, Policies: []polprog.Policy{pol}}}}
+		if withSecond {
+			r.Tiers = append(r.Tiers, polprog.Tier{Name: "second", EndRuleID: 9, EndAction: polprog.TierEndDeny, Policies: []polprog.Policy{{Kind: "GlobalNetworkPolicy", Name: "p2",
+				Rules: []polprog.Rule{{Rule: &proto.Rule{Action: "allow", Protocol: rulegen.ProtoName("udp"), RuleId: "second0"}, MatchID: 10}}}}})
+		}
+		return r
+	}
+	countJumps := func(p asm.Insns) int {
+		n := 0
+		for _, in := range p {
+			if cl := in.Instruction[0] & 7; cl == 5 || cl == 6 {
+				n++
+			}
+		}
+		return n
+	}
+	opts := polexec.Options{AllowDenyJumps: true, AllowIdx: 1, DenyIdx: 2, EntryIdx: 3, Stride: 50}
+	fds := polexec.FDs{IPSets: 3, State: 4, Static: 5, PolJump: 6}
+	// calibrate: jumps of a single-program configuration and jumps per base rule
+	p1, err1 := polexec.Compile(config(200, 1, false), polexec.IDs{}, opts, fds)
+	p2, err2 := polexec.Compile(config(201, 1, false), polexec.IDs{}, opts, fds)
+	if err1 != nil || err2 != nil || len(p1) != 1 || len(p2) != 1 {
+		c.Inconclusive("aligned-split calibration did not yield single programs")
+		return
+	}
+	j200, per := countJumps(p1[0]), countJumps(p2[0])-countJumps(p1[0])
+	if per <= 0 {
+		c.Inconclusive("aligned-split calibration: no jumps per rule")
+		return
+	}
+	const threshold = 8192 - 200 // polprog's defaultPerProgramJumpLimit
+	n := 200 + (threshold-60-j200)/per
+	tried, split, loaded := 0, 0, 0
+	for extra := 1; extra <= 120; extra++ {
+		rules := config(n, extra, true)
+		detail := func() map[string]any {
+			return map[string]any{"directed": "split threshold (production default) crossed exactly at the first rule after a tier that ends with deny and has no pass rule",
+				"options": fmt.Sprintf("%+v", opts), "rules": summary(rules),
+				"tier_first":  fmt.Sprintf("%d rules {tcp, src 10.x.y.0/24, 20 single dst ports, allow/deny alternating} + 1 rule {tcp, src net, %d single dst ports, deny}; end action deny", n, extra),
+				"tier_second": "1 rule {udp, allow}; end action deny"}
+		}
+		progs, err := polexec.Compile(rules, polexec.IDs{}, opts, fds)
+		if err != nil {
+			d := detail()
+			d["error"] = err.Error()
+			c.Violationf("compile-error", d, "polprog.Builder.Instructions failed on a valid configuration: %v", err)
+			return
+		}
+		tried++
+		if len(progs) > 1 {
+			split++
+		}
+		// Load into the kernel: every variant that split for the first time or near it, and every 10th.
+		if bpfsys.Available() != nil || (len(progs) == 1 && extra%10 != 0) || (len(progs) > 1 && split > 6 && extra%10 != 0) {
+			continue
+		}
+		loaded++
+		e, ok := build(c, rules, polexec.IDs{}, opts, nil, detail)
+		if !ok {
+			return
+		}
+		e.close()
+	}
+	c.Count("directed_aligned_split_variants", int64(tried))
+	c.Count("directed_aligned_split_variants_that_split", int64(split))
+	c.Count("directed_aligned_split_variants_loaded", int64(loaded))
+	if split > 0 && split < tried {
+		c.NonTrivial("aligned-split", n, per)
+	}
+}
+
 func run(c *harness.Case) {
+	if c.Index == 5 {
+		alignedSplit(c)
+		return
+	}
 	r := c.R
 	ipver := uint8(4)
 	if r.Intn(3) == 0 {
@@ -632,9 +805,25 @@ func run(c *harness.Case) {
 		}
 	}
 
-	e, ok := build(c, rules, ids, opts, members, detail)
-	if !ok {
-		return
+	var e *executors
+	for attempt := 0; ; attempt++ {
+		var ok bool
+		e, ok = build(c, rules, ids, opts, members, detail)
+		if ok {
+			break
+		}
+		switch {
+		case lastBuildFailure == "log-in-profile" && attempt < 3:
+			// recorded; go on without the log rules (they never change a verdict)
+			rules = withoutProfileLogRules(rules)
+			c.Count("continued_after_log_in_profile_panic", 1)
+		case lastBuildFailure == "unreachable-after-split" && attempt < 3 && opts.MaxJumps > 0:
+			// recorded; go on with another split point
+			opts.MaxJumps = opts.MaxJumps*2 + 7
+			c.Count("continued_after_unreachable_split", 1)
+		default:
+			return
+		}
 	}
 	defer e.close()
 	if e.k == nil {
@@ -657,6 +846,7 @@ func run(c *harness.Case) {
 		}
 	}
 	shapes := map[string]bool{}
+	protoNameHits := 0
 	for i, p := range pkts {
 		pre := p
 		if r.Intn(3) == 0 { // DNAT: the pre-NAT destination differs
@@ -746,7 +936,8 @@ func run(c *harness.Case) {
 						cl = append(cl, n)
 					}
 					sort.Strings(cl)
-					key = "verdict-mismatch:protocol-name-not-resolved:" + strings.Join(cl, "+")
+					key = "verdict-mismatch:protocol-name-not-resolved"
+					d["unresolved_protocol_names_in_configuration"] = cl
 					d["diagnosis"] = "the same configuration with protocol names replaced by numbers reaches the reference verdict"
 				}
 			}
@@ -759,6 +950,14 @@ func run(c *harness.Case) {
 		d["reference"] = want
 		d["observed"] = map[string]any{"verdict": got.Verdict, "ret": got.Ret, "pol_rc": got.PolRC, "executor": map[bool]string{true: "kernel", false: "interpreter"}[e.k != nil], "vm_chain": vmRes.Chain}
 		c.Violationf(key, d, "packet %s: BPF program says %s (pol_rc=%d), reference says %s (%s)", p, got.Verdict, got.PolRC, want.V, want.Why)
+		if key == "verdict-mismatch:protocol-name-not-resolved" {
+			// a listed shape: keep judging the other packets (further mismatches of this shape are
+			// recorded under the same key), so that it cannot hide a different defect
+			protoNameHits++
+			if protoNameHits < 3 {
+				continue
+			}
+		}
 		return
 	}
 	var sh []string
@@ -784,7 +983,7 @@ func main() {
 		Rule: "one case = one generated polprog.Rules (workload or host interface, 0-2 pre-DNAT / apply-on-forward / normal host tiers, host profiles, 0-3 workload tiers x 0-4 policies x 0-5 rules, 0-3 profiles, " +
 			"tier end action deny/pass/unset, SuppressNormalHostPolicy, 1/8 XDP; rules from rulegen: 10/40/80% full-featured (CIDRs, ports, named ports, selector and service IP sets, ICMP, negations, protocol names and numbers), rest simple; " +
 			"IPv4 2/3, IPv6 1/3; flow logs, policy debug, compiled-in or skb->cb jump indexes, 1/3 with a lowered split threshold (15-300 jumps: chained sub-programs), trampoline stride default/1000/1500/4000; " +
-			"case 7 mod 400 (thorough 7 mod 150) is a >8000-jump policy that splits at the real threshold) x 40 (thorough 60) packet states: boundary packets of 8 rules, universe and random packets, " +
+			"case 7 mod 400 (thorough 7 mod 150) is a >8000-jump policy that splits at the real threshold; case 5 is directed: 120 variants of a two-tier workload sized so that the production split threshold is crossed one jump at a time around the end of the first tier, loaded into the kernel) x 40 (thorough 60) packet states: boundary packets of 8 rules, universe and random packets, " +
 			"1/3 with a different pre-NAT destination, to/from-host flags, junk in pol_rc/rules_hit; non-trivial = at least one rule; distinct by (ip version, options, shape)",
 		Assumptions: []string{
 			"reference = verif/internal/refpolicy rule matching, arranged per the comments of polprog.Builder.Instructions",
@@ -794,12 +993,12 @@ func main() {
 		},
 		Cases: func(tier string) int {
 			if tier == "thorough" {
-				return 20000
+				return 24000
 			}
-			return 800
+			return 1200
 		},
 		Run: run,
-		Floors: map[string]int64{"verdicts_compared": 15000, "programs_compiled": 800, "split_configurations": 60, "packets_through_several_sub_programs": 500,
-			"verdict_allow": 2000, "verdict_deny": 5000, "verdict_xdp-pass": 100, "ip_set_entries": 2000},
+		Floors: map[string]int64{"verdicts_compared": 4000, "programs_compiled": 150, "split_configurations": 12, "packets_through_several_sub_programs": 250,
+			"verdict_allow": 500, "verdict_deny": 3000, "verdict_xdp-pass": 150, "ip_set_entries": 4000, "directed_aligned_split_variants": 50},
 	})
 }
